@@ -946,7 +946,7 @@ class Check:
         if only:
             hs = [h for h in hs if any(x in h for x in only)]
         log('[%s] %d harnesses, MIR dump %.1fs, %d functions in dump' % (s.prop, len(hs), s.dump_s, len(s.fns)))
-        nval = 3 if s.tier == 'quick' else 25
+        nval = 3 if s.tier == 'quick' else 40
         with ThreadPoolExecutor(max_workers=s.jobs) as pool:
             for h in hs:
                 T.reset()
@@ -985,13 +985,15 @@ class Check:
                             log('  %s: cover %s not shown reachable' % (h, cid))
             if s.tier == 'thorough' and not os.environ.get('VERIF_NO_SECOND_LOWERING'):
                 # second lowering: the same harnesses from the -Zmir-opt-level=1 dump (a differently shaped MIR of the
-                # same code) must give the same verdicts; a rotating third per seed keeps the cost bounded
+                # same code) must give the same verdicts.  All harnesses by default; VERIF_SECOND_LOWERING=third keeps it to a
+                # third of them, rotating with the seed (the first version's setting)
                 try:
                     path1, dt1 = dump_mir(s.feature, 1)
                     first_info = dict(s.harness_info)
                     s.text = open(path1).read()
                     s.fns = mir.parse_mir(s.text)
-                    sub = [h for i, h in enumerate(sorted(hs)) if (i + s.seed) % 3 == 0]
+                    third = os.environ.get('VERIF_SECOND_LOWERING') == 'third'
+                    sub = [h for i, h in enumerate(sorted(hs)) if (not third) or (i + s.seed) % 3 == 0]
                     before = (s.stats['obligations'], s.stats['discharged'])
                     log('[%s] second lowering (mir-opt-level=1): %d harnesses' % (s.prop, len(sub)))
                     s.phase2 = True
